@@ -81,6 +81,7 @@ func c20Cover(input string, chunks []string, byteMode bool) string {
 	best := 0 // furthest position reached
 	for ci, ch := range chunks {
 		T := c20Symbols(ch, byteMode)
+		seg := 0 // offset in T where the current contiguous run started
 		for ti, x := range T {
 			if cur < n && S[cur] == x {
 				cur++
@@ -94,14 +95,14 @@ func c20Cover(input string, chunks []string, byteMode bool) string {
 			k := sort.SearchInts(ps, cur) // first index with ps[k] >= cur
 			if k == 0 {
 				// x does not occur in S[0:cur]: either content was skipped, or it is not input content at all
-				if k < len(ps) {
-					q := ps[k]
-					return fmt.Sprintf("content lost: input symbols [%d:%d] = %s are skipped (chunk %d continues at offset %d with %s; chunk = %s)",
-						cur, q, c20SymText(S[cur:q], byteMode), ci, ti, c20SymText(T[ti:], byteMode), c20ClipQ(ch))
+				if len(ps) == 0 {
+					return fmt.Sprintf("chunk %d holds a symbol that is not in the input at all: offset %d, %s; chunk = %s", ci, ti, c20SymText(T[ti:], byteMode), c20ClipQ(ch))
 				}
-				return fmt.Sprintf("chunk %d holds a symbol that is not in the input at all: offset %d, %s; chunk = %s", ci, ti, c20SymText(T[ti:], byteMode), c20ClipQ(ch))
+				return fmt.Sprintf("content lost: %d of %d input symbols are covered so far, the input continues with %s but chunk %d continues (offset %d) with %s, which cannot be placed without skipping input; chunk = %s",
+					best, n, c20SymText(S[best:], byteMode), ci, seg, c20SymText(T[seg:], byteMode), c20ClipQ(ch))
 			}
 			cur = ps[k-1] + 1
+			seg = ti
 		}
 	}
 	if best != n {
